@@ -167,7 +167,72 @@ def leaves(x, path="", out=None, seen=None, depth=0):
             leaves(d[k], f"{path}.{k}", out, seen, depth + 1)
     return out
 def leaves_changed(before, after):
-    return sorted(k for k in before if k in after and before[k] != after[k])
+    """paths present before and after whose bytes / value differ, plus STRUCTURAL replacements: a leaf (None, scalar, array)
+    that has become an object / list / dict (a `None` field of a caller's argument object that was filled in) or the converse.
+    Paths that only appear (a cached_property stored later) or only disappear (a deleted cache entry) are not changes."""
+    out = [k for k in before if k in after and before[k] != after[k]]
+    gone = [k for k in before if k not in after]
+    if gone:
+        new = [k for k in after if k not in before]
+        under = lambda a, b: b.startswith(a) and b[len(a):len(a) + 1] in (".", "[", "{")
+        out += [k + " (leaf -> object)" for k in gone if any(under(k, n) for n in new)]
+        out += [n + " (object -> leaf)" for n in new if any(under(n, k) for k in gone)]
+    return sorted(out)
+
+_DEFAULTS = []
+def default_singletons():
+    """[(qualified name, object)]: every non-primitive default-argument object of every function / method / property defined in
+    the autoarray package (the shared mutable defaults: SettingsInversion(), Preloads(), OverSamplingDataset(), np.zeros(0) ...)"""
+    if _DEFAULTS: return _DEFAULTS
+    import_aa()
+    prim = (type(None), bool, int, float, complex, str, bytes, type, types.FunctionType)
+    def is_prim(x): return isinstance(x, prim) or (isinstance(x, (tuple, frozenset)) and all(is_prim(y) for y in x))
+    seen = set()
+    def visit(f, name, depth=0):
+        if depth > 4 or f is None: return
+        for attr in ("__func__", "fget", "func", "__wrapped__"):
+            g = getattr(f, attr, None)
+            if g is not None and g is not f and callable(g): visit(g, name, depth + 1)
+        if not isinstance(f, types.FunctionType): return
+        ds = list(f.__defaults__ or ()) + list((f.__kwdefaults__ or {}).values())
+        for d in ds:
+            if is_prim(d) or id(d) in seen: continue
+            seen.add(id(d)); _DEFAULTS.append((name, d))
+    for mn in sorted(m for m in sys.modules if m == "autoarray" or m.startswith("autoarray.")):
+        mod = sys.modules[mn]
+        for n, o in sorted(vars(mod).items(), key=lambda kv: kv[0]):
+            if isinstance(o, type) and getattr(o, "__module__", "") == mn:
+                for n2, m2 in sorted(vars(o).items(), key=lambda kv: kv[0]): visit(m2, f"{mn}.{n}.{n2}")
+            elif getattr(o, "__module__", None) == mn: visit(o, f"{mn}.{n}")
+    return _DEFAULTS
+def singletons_fp():
+    return leaves([d for _, d in default_singletons()], "defaults")
+def singletons_changed(fp):
+    ch = leaves_changed(fp, singletons_fp())
+    names = default_singletons()
+    out = []
+    for c in ch:
+        try: k = int(c[len("defaults["):c.index("]")]); out.append(names[k][0] + " default" + c[c.index("]") + 1:])
+        except Exception: out.append(c)     # noqa
+    return out
+
+class Watch:
+    """fingerprints of caller-owned objects and of EVERY default-argument singleton of the package; bad() lists what changed"""
+    def __init__(self, owned):
+        self.owned = owned; self.fp = leaves(owned); self.sfp = singletons_fp()
+    def bad(self):
+        out = []
+        ch = leaves_changed(self.fp, leaves(self.owned))
+        if ch: out.append("caller-owned input changed: " + ",".join(ch[:4]))
+        sc = singletons_changed(self.sfp)
+        if sc: out.append("default-argument singleton changed: " + ",".join(sc[:4]))
+        return out
+def stored_changed(before, objs):
+    """objs: the objects of a graph; before: leaves of their instance __dict__s taken before a read.  A value that was stored before
+    the read (a cached_property entry, an attribute, an array reachable from them) must hold the same bytes after it (an entry that
+    is deleted -- curvature_matrix after the in-place `+=` -- disappears, it is not reported)."""
+    return leaves_changed(before, stored(objs))
+def stored(objs): return leaves(list(objs), "obj")
 
 # ----------------------------------------------------------------------------- kinds
 SUB = 2
@@ -597,7 +662,7 @@ def run_hist0(inp):
     for d in singletons:
         for x in d:
             if hasattr(x, "use_w_tilde"): x.use_w_tilde = True
-    single_before = leaves(singletons)
+    single_before = leaves(singletons); all_single = singletons_fp()
     aux_fp = {}
     notes = []
     for s in steps:
@@ -632,7 +697,7 @@ def run_hist0(inp):
         # cached_property values filled later are new paths (ignored); existing paths must keep their bytes
         bad = leaves_changed(fp, now)
         if bad: aux_bad.append(type(a).__name__ + ":" + ",".join(bad[:3]))
-    single_bad = leaves_changed(single_before, leaves(singletons))
+    single_bad = sorted(set(leaves_changed(single_before, leaves(singletons)) + singletons_changed(all_single)))
     # final snapshot
     fin_in = [r.in_contents(i) for i in range(len(r.inputs))]
     fin_objs = []
@@ -723,6 +788,7 @@ def build_graph(cfg):
         reg = aa.reg.Constant(coefficient=coeff) if coeff is not None else None
         mappers.append(aa.Mapper(mapper_grids=mg, over_sampler=grid.over_sampler, regularization=reg))
     settings = aa.SettingsInversion(use_w_tilde=cfg["w_tilde"], use_positive_only_solver=cfg.get("positive", False),
+                                    positive_only_uses_p_initial=cfg.get("p_initial", True),      # production default, pushed explicitly
                                     no_regularization_add_to_curvature_diag_value=1.0,
                                     force_edge_pixels_to_zeros=cfg.get("force_edge", True),
                                     force_edge_image_pixels_to_zeros=cfg.get("edge_image", False),
@@ -759,7 +825,8 @@ def func_list_cls():
     return _FUNC_CLS[0]
 
 PRELOADABLE = {"curvature_matrix": "curvature_matrix", "curvature_matrix_mapper_diag": "_curvature_matrix_mapper_diag",
-               "regularization_matrix": "regularization_matrix", "operated_mapping_matrix": "operated_mapping_matrix"}
+               "regularization_matrix": "regularization_matrix", "operated_mapping_matrix": "operated_mapping_matrix",
+               "data_vector_mapper": "_data_vector_mapper"}
 def make_inversion(cfg, preload_F=None):
     """cfg["preloads"]: names of aa.Preloads arguments, each filled with a private copy of the quantity computed on a separate
     fresh inversion (the caller's precomputed arrays: they are `owned`, hence fingerprinted)"""
@@ -803,19 +870,19 @@ def run_inv(inp):
     if P is not None: kw["preloads"] = aa.Preloads(curvature_matrix=P)
     if PD is not None: kw["preloads"] = aa.Preloads(curvature_matrix_mapper_diag=PD)
     inv = aa.Inversion(dataset=ds, linear_obj_list=mappers.objs, settings=settings, **kw)
-    owned_fp = leaves(owned)
+    w = Watch(owned)
     out = []
     for q in inp["qs"]:
         if q == "QF": out.append(bits(inv.curvature_matrix))
         elif q == "QFR": out.append(bits(inv.curvature_reg_matrix))
         elif q == "QPre": out.append(bits(P))
         else: out.append(bits(PD))
-    bad = leaves_changed(owned_fp, leaves(owned))
+    bad = w.bad()
     coq = (f"(KInv {pre} {carr(bits(F))} {carr(bits(Hm))} {carr(bits(FR))} {carr(bits(D))} {carr(bits(U))} {clist(inp['qs'])} "
            f"{clist([carr(o) for o in out])})")
     res = {"coq": coq, "out": [zlib.crc32(str(o).encode()) for o in out], "py_ok": None if not bad else False,
            "nontrivial": len(inp["qs"]) >= 2, "kind": "inv:" + type(inv).__name__ + ":" + pre + f":{len(mappers)}mappers"}
-    if bad: res["detail"] = "caller-owned input changed: " + ",".join(bad[:4])
+    if bad: res["detail"] = "; ".join(bad[:4])
     return res
 
 GRAPH_Q = {
@@ -850,27 +917,38 @@ def graph_read(parts, who, name):
     except Exception as e:   # noqa
         return "EXC " + type(e).__name__
 _TWIN_CACHE = {}
+def warm_start_all_passive(inv):
+    """True iff the positive-only solver with an initial guess starts with EVERY parameter in the passive set (the unconstrained
+    solution is strictly positive): computed on a private twin, only used to count how often the state is reached"""
+    try:
+        st = inv.settings
+        if not (st.use_positive_only_solver and st.positive_only_uses_p_initial) or st.force_edge_pixels_to_zeros: return False
+        return bool(np.all(np.linalg.solve(np.array(inv.curvature_reg_matrix), np.array(inv.data_vector)) > 0))
+    except Exception: return False      # noqa
 def run_graph(inp):
     cfg = inp["cfg"]
     key = str(sorted(cfg.items()))
     tw = _TWIN_CACHE.setdefault(key, {})
     inv, ds, mappers, owned = make_inversion(cfg)
     parts = (inv, ds, mappers)
-    from autoarray.inversion.inversion import factory
-    singletons = [factory.inversion_from.__defaults__, factory.inversion_imaging_from.__defaults__]
-    fp0 = leaves([owned, singletons])
+    w = Watch(owned)
+    objs = [inv, ds] + list(mappers.objs)
     bad = []
+    if "warm" not in tw: tw["warm"] = warm_start_all_passive(make_inversion(cfg)[0])
+    tally("graph/reuse/fit cases whose positive-only warm start has every parameter passive", int(tw["warm"]))
     for who, name in inp["reads"]:
         if (who, name) not in tw:
             ti, tds, tm, _ = make_inversion(cfg)
             tw[(who, name)] = graph_read((ti, tds, tm), who, name)
+        before = stored(objs)
         got = graph_read(parts, who, name)
         if got != tw[(who, name)]:
             bad.append(f"{who}.{name} differs from the never-read twin")
-    ch = leaves_changed(fp0, leaves([owned, singletons]))
-    if ch: bad.append("caller-owned input changed: " + ",".join(ch[:4]))
+        ch = stored_changed(before, objs)
+        if ch: bad.append(f"reading {who}.{name} changed a value stored before: " + ",".join(ch[:3]))
+    bad += w.bad()
     res = {"coq": None, "out": {"reads": len(inp["reads"]), "bad": bad[:5]}, "py_ok": not bad, "nontrivial": len(inp["reads"]) >= 3,
-           "kind": "graph:" + type(inv).__name__}
+           "kind": "graph:" + type(inv).__name__ + (":warm-all-passive" if tw["warm"] else "")}
     if bad: res["detail"] = "; ".join(bad[:5])
     return res
 
@@ -900,9 +978,7 @@ def ds_derive(ds, d, owned):
 def ds_play(cfg, pre_reads, derivs, post_reads):
     """builds the dataset, reads [pre_reads] on it, derives, reads [post_reads] on every derived dataset and again on the source"""
     ds, mappers, settings, owned = build_graph(dict(cfg, mappers=[], w_tilde=False))
-    from autoarray.dataset.imaging.dataset import Imaging
-    owned = owned + [Imaging.__init__.__defaults__, Imaging.apply_over_sampling.__defaults__]
-    fp = leaves(owned)
+    w = Watch(owned)
     for q in pre_reads: ds_read(ds, q)
     out = []
     cur = ds
@@ -913,13 +989,13 @@ def ds_play(cfg, pre_reads, derivs, post_reads):
             out.append(exc_code(e)); break
         for q in post_reads: out.append(ds_read(cur, q))
     for q in post_reads: out.append(ds_read(ds, q))
-    return out, leaves_changed(fp, leaves(owned))
+    return out, w.bad()
 def run_dsderive(inp):
     got, changed = ds_play(inp["cfg"], inp["pre_reads"], inp["derivs"], inp["post_reads"])
     ref, _ = ds_play(inp["cfg"], [], [{k: v for k, v in d.items() if k != "reads_before"} for d in inp["derivs"]], inp["post_reads"])
     bad = [f"observation {i} depends on earlier reads" for i, (a, b) in enumerate(zip(got, ref)) if a != b]
     if len(got) != len(ref): bad.append("different number of observations")
-    if changed: bad.append("caller-owned input changed: " + ",".join(changed[:4]))
+    bad += changed
     res = {"coq": None, "out": {"n": len(got), "bad": bad[:4]}, "py_ok": not bad, "nontrivial": bool(inp["pre_reads"]) and bool(inp["derivs"]),
            "kind": "dsderive:" + "+".join(d["how"] for d in inp["derivs"])}
     if bad: res["detail"] = "; ".join(bad[:4])
@@ -968,16 +1044,20 @@ _REUSE_TWINS = {}
 def run_reuse(inp):
     tw = _REUSE_TWINS.setdefault(str(sorted((k, str(v)) for k, v in inp.items() if k != "reads")), {})
     built, owned = build_reuse(inp)
-    from autoarray.inversion.inversion import factory
-    singletons = [factory.inversion_from.__defaults__, factory.inversion_imaging_from.__defaults__]
-    fp0 = leaves([owned, singletons])
+    w = Watch(owned)
+    objs = [o for b in built for o in [b[0], b[1]] + list(b[2])]
     bad = []
+    if "warm" not in tw: tw["warm"] = [warm_start_all_passive(build_reuse(inp, only=k)[0][0][0]) for k in range(len(inp["invs"]))]
+    tally("graph/reuse/fit cases whose positive-only warm start has every parameter passive", int(any(tw["warm"])))
     for k, who, name in inp["reads"]:
         if (k, who, name) not in tw:
             tb, _ = build_reuse(inp, only=k)
             tw[(k, who, name)] = graph_read(tb[0], who, name)
+        before = stored(objs)
         if graph_read(built[k], who, name) != tw[(k, who, name)]:
             bad.append(f"inversion {k}: {who}.{name} differs from the twin built from unshared parts")
+        ch = stored_changed(before, objs)
+        if ch: bad.append(f"reading {who}.{name} of inversion {k} changed a value stored before: " + ",".join(ch[:3]))
     if inp.get("scaled"):
         # metamorphic oracle that does not go through a twin (a cache shared by ALL objects would serve the twin the same stale
         # value): datasets 0 and 1 hold data d and 2 d with one noise map, inversions 0 and 1 use the same mappers, so the data
@@ -989,8 +1069,7 @@ def run_reuse(inp):
             if not np.array_equal(f0, f1): bad.append("curvature_matrix differs between two datasets with one noise map")
         except Exception as e:   # noqa
             bad.append("scaled pair: " + type(e).__name__)
-    ch = leaves_changed(fp0, leaves([owned, singletons]))
-    if ch: bad.append("caller-owned input changed: " + ",".join(ch[:4]))
+    bad += w.bad()
     shared = "+".join(x for x, c in (("dataset", len({iv["ds"] for iv in inp["invs"]}) < len(inp["invs"])),
                                      ("mapper", len({tuple(iv["mappers"]) for iv in inp["invs"]}) < len(inp["invs"])),
                                      ("preloads", bool(inp.get("preload")))) if c)
@@ -1091,6 +1170,7 @@ def run_edit(inp):
     if kind == "dataset": obj = make_dataset(arr_obj)
     cached = set(KINDS[kind].cached) | {"is_uniform", "amplitudes", "phases", "circular_radius"}
     bad = []
+    sfp = singletons_fp()
     seen = set()
     for q in inp["pre"]:
         edit_read(kind, obj, q); seen.add(q)
@@ -1128,6 +1208,8 @@ def run_edit(inp):
         if got != edit_read(kind, t, q): bad.append(f"{kind}.{q} after an in-place edit is not the quantity of the edited contents")
     if kind != "vis" and not np.array_equal(nd, nd0, equal_nan=True):      # Visibilities(ndarray) stores the caller's array by design
         bad.append("the caller's array changed when the constructed object was edited")
+    sc = singletons_changed(sfp)
+    if sc: bad.append("default-argument singleton changed: " + ",".join(sc[:4]))
     res = {"coq": None, "out": {"bad": bad[:4]}, "py_ok": not bad, "nontrivial": bool(inp["pre"]) and (bool(inp["edits"]) or bool(inp.get("derive"))),
            "kind": "edit:" + kind + (":derived-" + inp["derive"] if inp.get("derive") else "")}
     if bad: res["detail"] = "; ".join(bad[:4])
@@ -1220,15 +1302,20 @@ def run_fit(inp):
     cfg = inp["cfg"]
     tw = _FIT_TWINS.setdefault(str(sorted(cfg.items())), {})
     fit, ds, mappers, owned = build_fit(cfg)
-    fp0 = leaves(owned)
+    w = Watch(owned)
+    objs = [fit, ds] + list(mappers.objs or [])
     bad = []
+    if "warm" not in tw: tw["warm"] = cfg.get("model") is None and warm_start_all_passive(build_fit(cfg)[0].inversion)
+    tally("graph/reuse/fit cases whose positive-only warm start has every parameter passive", int(tw["warm"]))
     for who, name in inp["reads"]:
         if (who, name) not in tw:
             tf, tds, tm, _ = build_fit(cfg)
             tw[(who, name)] = fit_read((tf, tds, tm), who, name)
+        before = stored(objs + ([fit.__dict__["inversion"]] if fit.__dict__.get("inversion") is not None else []))
         if fit_read((fit, ds, mappers), who, name) != tw[(who, name)]: bad.append(f"{who}.{name} differs from the never-read twin")
-    ch = leaves_changed(fp0, leaves(owned))
-    if ch: bad.append("caller-owned input changed: " + ",".join(ch[:4]))
+        ch = leaves_changed(before, stored(objs + ([fit.__dict__["inversion"]] if fit.__dict__.get("inversion") is not None else [])))
+        if ch: bad.append(f"reading {who}.{name} changed a value stored before: " + ",".join(ch[:3]))
+    bad += w.bad()
     res = {"coq": None, "out": {"reads": len(inp["reads"]), "bad": bad[:5]}, "py_ok": not bad, "nontrivial": len(inp["reads"]) >= 3,
            "kind": "fit:" + (type(fit.inversion).__name__ if cfg.get("model") is None else "given-model" + (":masked" if cfg.get("use_mask") else ""))}
     if bad: res["detail"] = "; ".join(bad[:5])
@@ -1315,7 +1402,7 @@ def run_mesh(inp):
     cfg = inp["cfg"]
     tw = _MESH_TWINS.setdefault(str(sorted(cfg.items())), {})
     parts, owned = build_mesh_graph(cfg)
-    fp0 = leaves(owned)
+    w = Watch(owned)
     bad = []; nexc = 0
     for who, name in inp["reads"]:
         if (who, name) not in tw:
@@ -1324,8 +1411,7 @@ def run_mesh(inp):
         got = mesh_read(parts, who, name, cfg)
         nexc += got.startswith("EXC")
         if got != tw[(who, name)]: bad.append(f"{who}.{name} differs from the never-read twin")
-    ch = leaves_changed(fp0, leaves(owned))
-    if ch: bad.append("caller-owned input changed: " + ",".join(ch[:4]))
+    bad += w.bad()
     tally("mesh reads raising (canonical exception)", nexc); tally("mesh reads", len(inp["reads"]))
     res = {"coq": None, "out": {"reads": len(inp["reads"]), "bad": bad[:5]}, "py_ok": not bad, "nontrivial": len(inp["reads"]) >= 3,
            "kind": "mesh:" + cfg["kind"] + ":" + cfg["reg"]}
@@ -1506,7 +1592,7 @@ def run_gcase(inp):
             tparts, _ = gbuild(inst, cfg)
             tw[n] = gread_node(tparts, node, cfg)
     parts, owned = gbuild(inst, cfg)
-    fp0 = leaves(owned)
+    w = Watch(owned)
     out = []
     for n in inp["reads"]:
         before = gpresent(nodes, parts)
@@ -1515,14 +1601,14 @@ def run_gcase(inp):
         filled = sorted(m for m in after if nodes[m][2] == GC)
         changed = sorted(m for m in before if m in after and leaves_changed(before[m], after[m]))
         out.append((v, filled, changed))
-    ch = leaves_changed(fp0, leaves(owned))
+    ch = w.bad()
     cnl = lambda l: clist([cnat(x) for x in l])
     couts = clist([f"({carr(v)}, {cnl(f)}, {cnl(c)})" for v, f, c in out])
     coq = f"(KGraph {cnat(inst)} {clist([carr(tw[n]) for n in range(len(nodes))])} {cnl(inp['reads'])} {couts})"
     tally("graph-machine reads", len(inp["reads"]))
     res = {"coq": coq, "out": {"reads": inp["reads"], "filled": [f for _, f, _ in out][-1:], "changed": [c for _, _, c in out if c]},
            "py_ok": False if ch else None, "nontrivial": len(inp["reads"]) >= 2, "kind": "gcase:" + GINST[inst] + (":voronoi" if inst == 1 else "")}
-    if ch: res["detail"] = "caller-owned input changed: " + ",".join(ch[:4])
+    if ch: res["detail"] = "; ".join(ch[:4])
     return res
 def gen_gcase(rng, inst):
     nodes = GNODES[GINST[inst]]
@@ -1556,6 +1642,7 @@ def run_seed(inp):
     img = np.array(inp["image"], dtype=float).reshape(H, W)
     outs = []
     bad = []
+    sfp = singletons_fp()
     for st in inp["states"]:
         np.random.seed(st)
         for _ in range(st % 7): np.random.random()
@@ -1586,6 +1673,8 @@ def run_seed(inp):
             outs.append(bits(preprocess.gaussian_noise_via_shape_and_sigma_from(shape=(H * W,), sigma=2.0, seed=inp["seed"])))
         ch = leaves_changed(fp, leaves(owned))
         if ch: bad.append("caller-owned input changed: " + ",".join(ch[:4]))
+    sc = singletons_changed(sfp)
+    if sc: bad.append("default-argument singleton changed: " + ",".join(sc[:4]))
     coq = f"(KSeed {cz(inp['seed'])} {clist([carr(o) for o in outs])})"
     res = {"coq": coq, "out": [zlib.crc32(str(o).encode()) for o in outs], "py_ok": False if bad else None, "nontrivial": True,
            "kind": "seed:" + inp["via"] + (":unseeded" if inp["seed"] == -1 else "")}
